@@ -26,6 +26,8 @@ func c13Values() []interface{} {
 		map[string]interface{}{"x": map[string]interface{}{}}, "?var", "??", "?x<5", []interface{}{"?a", "?b"},
 		map[string]interface{}{"?k": "v", "other": float64(1)}, []interface{}{map[string]interface{}{"a": float64(1)}, "s"},
 		float64(-1), "2000-13-45T99:99:99Z", map[string]interface{}{"code": float64(7)},
+		// values that are looked at only when the action runs
+		map[string]interface{}{"libraries": []interface{}{float64(5)}}, map[string]interface{}{"libraries": "lib", "timeout": "soon"},
 	}
 }
 
@@ -212,6 +214,10 @@ func execC13(t *testing.T, plan *h.Plan, trace bool) *h.Result {
 		if _, err := loc.AddRule(ctx(), "canaryrule", core.Map{"when": map[string]interface{}{"pattern": map[string]interface{}{"canarypulse": "?x"}}, "action": map[string]interface{}{"code": "'canary-fired'"}}); err != nil {
 			panic(err)
 		}
+		// (the base rules' condition asks for a fact with "b": make it hold, so that their actions run)
+		if _, err := loc.AddFact(ctx(), "condfact", core.Map{"b": "z"}); err != nil {
+			panic(err)
+		}
 		canaryDisabled := false
 		canary := func(after string) {
 			guard("canary:AddFact", func() {
@@ -311,6 +317,13 @@ func execC13(t *testing.T, plan *h.Plan, trace bool) *h.Result {
 				res.Count("inputs_rejected", 1)
 			} else {
 				res.Count("inputs_accepted", 1)
+			}
+			if (op.K == "addrule" || op.K == "addrulefact") && err == nil {
+				// an accepted rule is also run: what AddRule does not look at
+				// (action options, libraries, odd code) is looked at now.  The
+				// event matches the base `when`; errors are fine, panics and
+				// hangs are not.
+				guard("hostile-rule-event", func() { loc.ProcessEvent(ctx(), core.Map{"a": "x", "b": "y"}) })
 			}
 			canaryDisabled = op.K == "propfact" && op.Id == "canaryrule" && op.S == "disabled" && m["v"] == true && err == nil
 			canary(desc)
